@@ -76,7 +76,7 @@ Print Assumptions C02_every_patch_of_every_history_is_wellformed.
 
 Example C02_wf_ops_nonvacuous :
   Forall wf_op [UCreateCC (mkCCObj [99] (FOk (mkCidr V4 167772160 24)) FEmpty 4 (Some []) [] false 1 0 0);
-                Construct None None []; StartInformers; UCreateNode [110] [] []; DeliverNode; ProcNode [POk]].
+                Construct None None [] []; StartInformers; UCreateNode [110] [] []; DeliverNode; ProcNode [POk]].
 Proof.
   repeat constructor; cbn; try discriminate; try (intros ? E; discriminate E).
   all: try (unfold wf_cidr; cbn; repeat split; try lia; try reflexivity).
